@@ -202,6 +202,7 @@ func (e *Engine) verifyFunc(fc *FuncContract) (res *FuncResult) {
 		}
 	}()
 	st := &State{vars: map[types.Object]Value{}, ghost: map[string]T{}, pc: tTrue, H: map[string]T{}}
+	e.ensureMapHeaps(st)
 	st.Mem = e.fresh("Mem0", SHeap)
 	st.alloc = e.fresh("alloc0", SInt)
 	e.assumeGlobal(Ge(st.alloc, I(1)), "allocation pointer starts above nil")
@@ -263,13 +264,13 @@ func (e *Engine) verifyFunc(fc *FuncContract) (res *FuncResult) {
 		}
 		cx.returns = append(cx.returns, &retState{st: out, vals: vals, pos: body.Rbrace})
 	}
-	for _, r := range cx.returns {
+	for ri, r := range cx.returns {
 		for i := len(cx.defers) - 1; i >= 0; i-- {
 			if r.st != nil {
 				r.st = e.execStmt(r.st, cx.defers[i], &Ctx{results: results})
 			}
 		}
-		if r.st == nil {
+		if r.st == nil || r.st.pc.s == "false" {
 			continue
 		}
 		env := map[types.Object]Value{}
@@ -278,6 +279,8 @@ func (e *Engine) verifyFunc(fc *FuncContract) (res *FuncResult) {
 		}
 		bindResults(fc, env, r.vals)
 		e.oldState = entryState
+		e.obligs = append(e.obligs, &Oblig{name: fmt.Sprintf("%s/cover:return#%d", e.fnName, ri+1), kind: "cover", fn: e.fnName, props: fc.props,
+			goal: Implies(r.st.pc, tFalse), ndefs: len(e.defs), nfacts: len(e.facts), pos: fc.where})
 		for _, ens := range fc.ensures {
 			if ens.assume {
 				continue
@@ -319,6 +322,9 @@ func (e *Engine) verifyFunc(fc *FuncContract) (res *FuncResult) {
 	}
 	for ord, lc := range fc.loops {
 		for _, c := range lc.invariants {
+			check(c)
+		}
+		for _, c := range lc.steps {
 			check(c)
 		}
 		if lc.decreases != nil {
